@@ -112,6 +112,7 @@ type (
 		chain             Ledger
 		bQueue            *bqueue.Queue[*block.Block]
 		bSyncQueue        *bqueue.Queue[*block.Block]
+		bSyncQueueOnce    sync.Once
 		syncHFetcherQueue *bqueue.Queue[*block.Header]
 		syncBFetcherQueue *bqueue.Queue[*block.Block]
 		bFetcherQueue     *bqueue.Queue[*block.Block]
@@ -922,6 +923,9 @@ func (s *Server) handleBlockCmd(p Peer, block *block.Block) error {
 			// of the state sync module is not initialized yet.
 			return nil
 		}
+		// The queue can be started only when the module's block height is
+		// initialized (NeoFS-based synchronization starts it on stage change).
+		s.bSyncQueueOnce.Do(func() { go s.bSyncQueue.Run() })
 		return s.bSyncQueue.Put(block)
 	}
 	return s.bQueue.Put(block)
